@@ -23,7 +23,9 @@ Spec keys
   rules  [{"prod": str, "cat": str, "anchors": [gene names], "cut": int, "nb": int,
            "side": 0|1 (sideloaded protocluster covering the anchors), "t2": 0|1}]
   subs   [{"p": [[s,e],...], "tool": str, "label": str, "side": 0|1}]
-  misc   list of codes for extra generic features ("tta", "tfbs", "extmotif", "inmisc")
+  misc   list of codes for extra generic features ("tta", "tfbs", "extmotif", "inmisc", "ordfwd", "ordrev")
+  (genes may carry "op": "order" for the GenBank order(...) operator; decoration codes may end in "z" for
+   the boundary values 0.0 of E-value / score / masses)
   areas  0 -> do not create candidate clusters/regions (default 1)
   sub_like_rule  1 -> additionally a subregion with exactly the location of the first protocluster
 """
@@ -85,7 +87,7 @@ def make_sequence(spec: dict) -> str:
     return "".join(seq)
 
 
-def _bio_location(parts: list, strand: int, fuzzy: int = 0):
+def _bio_location(parts: list, strand: int, fuzzy: int = 0, operator: str = "join"):
     from Bio.SeqFeature import AfterPosition, BeforePosition, CompoundLocation, SimpleLocation
     locs = []
     for start, end in parts:
@@ -99,7 +101,7 @@ def _bio_location(parts: list, strand: int, fuzzy: int = 0):
             locs[0] = SimpleLocation(first.start, AfterPosition(int(first.end)), strand)
     if len(locs) == 1:
         return locs[0]
-    return CompoundLocation(locs)
+    return CompoundLocation(locs, operator=operator)
 
 
 def input_genbank(spec: dict) -> str:
@@ -118,14 +120,17 @@ def input_genbank(spec: dict) -> str:
                            qualifiers={"organism": ["Streptomyces verificans"], "mol_type": ["genomic DNA"],
                                        "db_xref": ["taxon:1234"]})]
     for gene in spec["genes"]:
-        location = _bio_location(gene["p"], gene["s"], gene.get("fz", 0))
+        location = _bio_location(gene["p"], gene["s"], gene.get("fz", 0), gene.get("op", "join"))
+        # long identifiers are locus tags (e.g. 'GCF_000123456_1_ASM12345v1_NZ_CP012345_1_cds_0001234');
+        # gene names and protein ids stay short, as in real annotations
+        short = gene["n"] if len(gene["n"]) <= 12 else "gn" + gene["n"][-4:]
         if gene.get("g"):
             features.append(SeqFeature(location, type="gene",
-                                       qualifiers={"locus_tag": [gene["n"]], "gene": [gene["n"] + "G"]}))
-        quals: dict[str, list[str]] = {"locus_tag": [gene["n"]], "product": [f"protein {gene['n']}"]}
+                                       qualifiers={"locus_tag": [gene["n"]], "gene": [short + "G"]}))
+        quals: dict[str, list[str]] = {"locus_tag": [gene["n"]], "product": [f"protein {short}"]}
         if gene.get("g"):
-            quals["gene"] = [gene["n"] + "G"]
-            quals["protein_id"] = [f"P_{gene['n']}.1"]
+            quals["gene"] = [short + "G"]
+            quals["protein_id"] = [f"P_{short}.1"]
         if gene.get("cs"):
             quals["codon_start"] = [str(gene["cs"])]
         if gene.get("note"):
@@ -138,6 +143,12 @@ def input_genbank(spec: dict) -> str:
         elif code == "extmotif":
             features.append(SeqFeature(SimpleLocation(6, 12, 1), type="CDS_motif",
                                        qualifiers={"note": ["external motif"], "label": ["ext"]}))
+        elif code in ("ordfwd", "ordrev"):
+            # a generic input feature whose parts are given with the GenBank order(...) operator
+            strand = 1 if code == "ordfwd" else -1
+            parts = [[3, 9], [12, 18], [length - 12, length - 3]]
+            features.append(SeqFeature(_bio_location(parts if strand == 1 else parts[::-1], strand, 0, "order"),
+                                       type="misc_feature", qualifiers={"note": [f"{code}: parts in order"]}))
     record.features = features
     handle = io.StringIO()
     SeqIO.write([record], handle, "genbank")
@@ -160,6 +171,10 @@ def _decorate_gene(record: Any, cds: Any, code: str, counter: dict) -> None:
     from antismash.detection.nrps_pks_domains.modular_domain import ModularDomain
     from antismash.detection.tigrfam.tigr_domain import TIGRDomain
 
+    # a trailing "z": the same annotation with the boundary values HMMER and the RiPP modules can report
+    # (E-value underflown to 0.0, score 0.0, masses 0.0, no alternative weights)
+    zero = code.endswith("z")
+    code = code.rstrip("z")
     name = cds.get_name()
     aa_len = len(cds.translation)
     codons = len(cds.location) // 3
@@ -181,8 +196,8 @@ def _decorate_gene(record: Any, cds: Any, code: str, counter: dict) -> None:
                           tool="full_hmmer", locus_tag=name)
         pfam.label = "ketoacyl-synt"
         pfam.domain = "ketoacyl-synt"
-        pfam.evalue = 1.3e-20
-        pfam.score = 75.5
+        pfam.evalue = 0.0 if zero else 1.3e-20
+        pfam.score = 0.0 if zero else 75.5
         pfam.translation = cds.translation[p_start:p_end] or "M"
         pfam.database = "35.0"
         pfam.detection = "hmmscan"
@@ -198,8 +213,8 @@ def _decorate_gene(record: Any, cds: Any, code: str, counter: dict) -> None:
                           locus_tag=name)
         tigr.label = "six_Cys_in_45"
         tigr.domain = "six_Cys_in_45"
-        tigr.evalue = 2.0e-5
-        tigr.score = 33.1
+        tigr.evalue = 0.0 if zero else 2.0e-5
+        tigr.score = 0.0 if zero else 33.1
         tigr.translation = cds.translation[p_start:p_end] or "M"
         tigr.detection = "hmmscan"
         tigr.database = "TIGRFam.hmm"
@@ -223,8 +238,8 @@ def _decorate_gene(record: Any, cds: Any, code: str, counter: dict) -> None:
             domain.subtypes = detailed[1:]
             domain.detection = "hmmscan"
             domain.database = "nrpspksdomains.hmm"
-            domain.evalue = 1.5e-30
-            domain.score = 101.2
+            domain.evalue = 0.0 if zero else 1.5e-30
+            domain.score = 0.0 if zero else 101.2
             domain.translation = cds.translation[q_start:q_end] or "M"
             counts[hit_id] = counts.get(hit_id, 0) + 1
             domain.domain_id = f"nrpspksdomains_{name}_{hit_id}.{counts[hit_id]}"
@@ -232,7 +247,7 @@ def _decorate_gene(record: Any, cds: Any, code: str, counter: dict) -> None:
             if hit_id == "PKS_AT":
                 domain.specificity = ["consensus: mal", "PKS signature: Malonyl-CoA"]
             record.add_antismash_domain(domain)
-            cds.nrps_pks.add_domain(_HMMResultLike(hit_id, q_start, q_end, 1.5e-30, 101.2, detailed),
+            cds.nrps_pks.add_domain(_HMMResultLike(hit_id, q_start, q_end, domain.evalue, domain.score, detailed),
                                     domain.domain_id)
             made.append(domain)
         cds.nrps_pks.type = "Type I Modular PKS"
@@ -242,8 +257,8 @@ def _decorate_gene(record: Any, cds: Any, code: str, counter: dict) -> None:
                              tool="nrps_pks_domains")
             motif.label = "PKSI-KS_m3"
             motif.domain_id = f"nrpspksmotif_{name}_0001"
-            motif.evalue = 4.4e-3
-            motif.score = 12.0
+            motif.evalue = 0.0 if zero else 4.4e-3
+            motif.score = 0.0 if zero else 12.0
             motif.detection = "hmmscan"
             motif.database = "abmotifs"
             motif.translation = cds.translation[m_start:m_end] or "M"
@@ -260,17 +275,19 @@ def _decorate_gene(record: Any, cds: Any, code: str, counter: dict) -> None:
                     module.add_monomer("mal", "mal")
                 record.add_module(module)
         counter.setdefault("x", []).extend(made if code in ("X1", "X2") else [])
-    elif code in ("R0", "R1", "R2"):   # prepeptides like modules.lanthipeptides / sactipeptides
+    elif code in ("R0", "R1", "R2", "R3"):   # prepeptides like modules.lanthipeptides / sactipeptides
+        # R0 core only, R1 leader + core, R2 leader + core + tail, R3 core + tail
         total = codons
         translation = cds.translation + "X" * max(0, total - aa_len)
-        leader_len = {"R0": 0, "R1": min(3, total - 2), "R2": min(3, total - 3)}[code]
-        tail_len = 2 if code == "R2" else 0
+        leader_len = {"R0": 0, "R1": min(3, total - 2), "R2": min(3, total - 3), "R3": 0}[code]
+        tail_len = 2 if code in ("R2", "R3") else 0
         leader = translation[:leader_len]
         core = translation[leader_len:total - tail_len]
         tail = translation[total - tail_len:total] if tail_len else ""
         peptide = Prepeptide(cds.location, "lanthipeptide", core, f"{name}_lanthipeptide", "lanthipeptides", "Class II",
-                             score=12.5, monoisotopic_mass=1234.5, molecular_weight=1236.7,
-                             alternative_weights=[1254.7, 1272.7], leader=leader, tail=tail)
+                             score=0.0 if zero else 12.5, monoisotopic_mass=0.0 if zero else 1234.5,
+                             molecular_weight=0.0 if zero else 1236.7,
+                             alternative_weights=[] if zero else [1254.7, 1272.7], leader=leader, tail=tail)
         record.add_cds_motif(peptide)
         cds.gene_functions.add(GeneFunction.ADDITIONAL, "lanthipeptides", "predicted lanthipeptide")
     else:
@@ -293,7 +310,7 @@ def _add_misc(record: Any, code: str) -> None:
         feature = Feature(location, feature_type="misc_feature", created_by_antismash=True)
         feature.notes.append("TFBS match to ZuR, Zinc-responsive repressor, confidence: strong, score: 21.85")
         record.add_feature(feature)
-    elif code in ("inmisc", "extmotif"):
+    elif code in ("inmisc", "extmotif", "ordfwd", "ordrev"):
         pass  # part of the input text
     else:
         raise ValueError(f"unknown misc code {code!r}")
@@ -404,9 +421,9 @@ def build(spec: dict) -> Any:
     for gene in spec["genes"]:
         cds = record.get_cds_by_name(gene["n"])
         for code in gene.get("a", []):
-            if code == "P" or in_region(cds):
+            if code.rstrip("z") == "P" or in_region(cds):
                 _decorate_gene(record, cds, code, counter)
-                if code == "D" and cds.region:
+                if code.rstrip("z") == "D" and cds.region:
                     # like modules.nrps_pks: predicted polymer and structure of the candidate clusters
                     for candidate in cds.region.candidate_clusters:
                         if cds in candidate.cds_children:
